@@ -45,6 +45,10 @@ def bits_int(rng, bits):
 
 
 def labels(rng):
+    if rng.random() < 0.08:
+        # the longest names RFC 1035 2.3.4 allows: 255 octets on the wire including the root label, and one octet less
+        last = rng.choice([61, 60])
+        return ['a' * 63, 'b' * 63, 'c' * 63, 'd' * last]
     count = rng.choice([0, 1, 2, 3, 5])
     result = []
     for _ in range(count):
@@ -173,6 +177,8 @@ def mx(rng):  # pylint: disable=invalid-name
     # the name as a label list or, as callers usually have it, as dotted text (letter case is preserved on the wire)
     dotted = any('.' in label for label in exchange)      # a label holding a '.' octet cannot be written as dotted text
     given = record.DnsNameUncompressed(list(exchange)) if dotted or rng.random() < 0.5 else '.'.join(exchange)
+    if isinstance(given, str) and rng.random() < 0.4:
+        given += '.'        # the fully qualified spelling (RFC 1035 5.1): the same name, the same octets
     lib = record.DnsRecordMx(preference, given)
     return Pair('mx', lib, ref.mx(preference, [label.encode('ascii') for label in exchange]))
 
